@@ -14,6 +14,7 @@ mod shared;
 
 mod common;
 mod fuzz;
+mod lim;
 mod strt;
 mod dur;
 mod c01;
@@ -79,6 +80,7 @@ fn dispatch(driver: &str, a: &Args) {
         "probetzif" => strt::probetzif(&a),
         "probetz" => strt::probetz(&a),
         "c17" => fuzz::run(&a),
+        "c05" => lim::run(&a),
         "c19replay" => c19::run_replay(&a),
         "c20" => c20::run(&a),
         "c20fixed" => c20::run_fixed(&a),
